@@ -21,6 +21,7 @@ import (
 	"github.com/prometheus/client_golang/prometheus"
 	dto "github.com/prometheus/client_model/go"
 	"github.com/saucelabs/forwarder"
+	"github.com/saucelabs/forwarder/httplog"
 	"github.com/saucelabs/forwarder/log"
 	"github.com/saucelabs/forwarder/middleware"
 )
@@ -48,6 +49,7 @@ type Options struct {
 	Redirect              map[string]string // dial redirect (--connect-to): requested host:port -> address actually dialled
 	ConnectHeaderErr      bool              // the transport's GetProxyConnectHeader (as set by command/run for --proxy-header / Kerberos) fails
 	DialAttempts          int               // dialer retry attempts (default 1)
+	LogHTTPBody           bool              // HTTP log mode "body" (--log-http body): the logger reads request and response bodies and puts them back
 }
 
 // TraceEv is one ProxyTrace event as seen through the verif hook.
@@ -163,6 +165,9 @@ func New(opt Options) (*Rig, error) {
 		cfg.Protocol = forwarder.HTTPSScheme
 	}
 	cfg.TestingHTTPHandler = opt.Handler
+	if opt.LogHTTPBody {
+		cfg.LogHTTPMode = httplog.Body
+	}
 	if opt.ProxyProtocol > 0 {
 		cfg.ProxyProtocolConfig = &forwarder.ProxyProtocolConfig{ReadHeaderTimeout: opt.ProxyProtocol}
 	}
